@@ -570,7 +570,7 @@ func c01FinishWrites(e *Env, s *Sched) {
 			return false
 		}
 		// a function through which setup / Execute / teardown of the node is reached
-		return e.Reaches(cal, func(x *ssa.Function) bool {
+		return e.ReachesRepo(cal, func(x *ssa.Function) bool {
 			n := ir.FuncName(x)
 			return x == s.Execute || n == "(*"+schedRel+".Node).setup" || n == "(*"+schedRel+".Node).teardown"
 		})
@@ -595,7 +595,7 @@ func c01FinishWrites(e *Env, s *Sched) {
 				// no exec afterwards
 				bad, _ := ir.Bypass(ev.Site, nil, ir.PathQuery{Bad: func(in ssa.Instruction) bool {
 					c, ok := in.(*ssa.Call)
-					return ok && execLike(c) && e.Reaches(c.Call.StaticCallee(), func(x *ssa.Function) bool { return x == s.Execute })
+					return ok && execLike(c) && e.ReachesRepo(c.Call.StaticCallee(), func(x *ssa.Function) bool { return x == s.Execute })
 				}})
 				r.Check(ok1 && bad == nil, "worker: status:=Success under status==Running, after the exec loop", pos,
 					"the worker marks the step finished without checking it is still running, or can execute the command again afterwards", e.FactsStr("dominating conditions: ", lits))
